@@ -183,7 +183,8 @@ pub struct RunOpts {
     pub len_mirror: Option<Arc<AtomicUsize>>,
 }
 
-pub struct RunOut {
+pub type RunOut = RunOutG<St>;
+pub struct RunOutG<S> {
     pub panic: Option<String>,
     pub completion: Option<Completion>,
     pub best_value: Option<isize>,
@@ -196,10 +197,10 @@ pub struct RunOut {
     pub fired: bool,
     pub exhausted: bool,
     pub self_enqueue: bool,
-    pub log: Vec<(u32, Ev<St>)>,
+    pub log: Vec<(u32, Ev<S>)>,
     pub c: CounterVals,
 }
-impl std::fmt::Debug for RunOut {
+impl<S> std::fmt::Debug for RunOutG<S> {
     fn fmt(&self, f: &mut std::fmt::Formatter<'_>) -> std::fmt::Result {
         write!(
             f,
@@ -242,22 +243,23 @@ struct Raw {
 }
 
 #[allow(clippy::too_many_arguments)]
-fn solve<D, C>(
-    pb: &(dyn Problem<State = St> + Send + Sync),
-    rlx: &(dyn Relaxation<State = St> + Send + Sync),
-    rank: &(dyn StateRanking<State = St> + Send + Sync),
-    width: &(dyn WidthHeuristic<St> + Send + Sync),
-    dom: &(dyn DominanceChecker<State = St> + Send + Sync),
+fn solve<S, D, C>(
+    pb: &(dyn Problem<State = S> + Send + Sync),
+    rlx: &(dyn Relaxation<State = S> + Send + Sync),
+    rank: &(dyn StateRanking<State = S> + Send + Sync),
+    width: &(dyn WidthHeuristic<S> + Send + Sync),
+    dom: &(dyn DominanceChecker<State = S> + Send + Sync),
     cut: &(dyn Cutoff + Send + Sync),
-    fringe: &mut (dyn Fringe<State = St> + Send + Sync),
+    fringe: &mut (dyn Fringe<State = S> + Send + Sync),
     opts: &RunOpts,
 ) -> Raw
 where
-    D: DecisionDiagram<State = St> + Default,
-    C: Cache<State = St> + Default + Send + Sync,
+    S: StateT,
+    D: DecisionDiagram<State = S> + Default,
+    C: Cache<State = S> + Default + Send + Sync,
 {
     if let Some(threads) = opts.threads {
-        let mut s = ParallelSolver::<St, D, C>::custom(pb, rlx, rank, width, dom, cut, fringe, threads);
+        let mut s = ParallelSolver::<S, D, C>::custom(pb, rlx, rank, width, dom, cut, fringe, threads);
         if let Some(k) = opts.with_nb_threads {
             s = s.with_nb_threads(k);
         }
@@ -267,7 +269,7 @@ where
         let completion = s.maximize();
         Raw { completion, best_value: s.best_value(), best_solution: s.best_solution(), lb: s.best_lower_bound(), ub: s.best_upper_bound(), explored: s.explored(), gap: s.gap() }
     } else {
-        let mut s = SequentialSolver::<St, D, C>::custom(pb, rlx, rank, width, dom, cut, fringe);
+        let mut s = SequentialSolver::<S, D, C>::custom(pb, rlx, rank, width, dom, cut, fringe);
         for (v, sol) in opts.primals.iter() {
             s.set_primal(*v, sol.clone());
         }
@@ -276,7 +278,11 @@ where
     }
 }
 
-pub fn make_width(w: &WidthKind, n: usize) -> Box<dyn WidthHeuristic<St> + Send + Sync> {
+/// what the harness needs from a state type
+pub trait StateT: Eq + std::hash::Hash + Clone + std::fmt::Debug + Send + Sync + 'static {}
+impl<T: Eq + std::hash::Hash + Clone + std::fmt::Debug + Send + Sync + 'static> StateT for T {}
+
+pub fn make_width<S: 'static>(w: &WidthKind, n: usize) -> Box<dyn WidthHeuristic<S> + Send + Sync> {
     match w {
         WidthKind::Fixed(w) => Box::new(FixedWidth(*w)),
         WidthKind::NbUnassigned => Box::new(NbUnassignedWidth(n)),
@@ -285,38 +291,54 @@ pub fn make_width(w: &WidthKind, n: usize) -> Box<dyn WidthHeuristic<St> + Send 
     }
 }
 
+/// The model-side pieces of a run, as trait objects (any model family).
+pub struct Core<'a, S> {
+    pub pb: &'a (dyn Problem<State = S> + Send + Sync),
+    pub rlx: &'a (dyn Relaxation<State = S> + Send + Sync),
+    pub rank: &'a (dyn StateRanking<State = S> + Send + Sync),
+    pub dom: &'a (dyn DominanceChecker<State = S> + Send + Sync),
+    pub n: usize,
+    pub budget: usize,
+}
+
 /// Runs one solver on one instance under one configuration.
 pub fn run_table(t: &TableDP, o: &Oracle, cfg: &Config, opts: &RunOpts) -> RunOut {
-    let log: Arc<Log<St>> = Log::new(opts.record);
-    let fine = if opts.fine_yields { opts.yield_hook.clone() } else { None };
-    let pb = RecProblem { inner: t, log: log.clone() };
     let rlx_inner = TRelax { t, o, rub: &cfg.rub };
-    let rlx = RecRelax { inner: &rlx_inner, log: log.clone() };
     let rank = TRank { t, o, mode: &cfg.rank };
-    let width_inner = make_width(&cfg.width, t.n);
-    let width = RecWidth { inner: width_inner.as_ref(), log: log.clone() };
     let dom_inner: Box<dyn DominanceChecker<State = St> + Send + Sync> = match cfg.dom {
         DomMode::None => Box::new(EmptyDominanceChecker::default()),
         _ => Box::new(SimpleDominanceChecker::new(TDom { t, o, mode: &cfg.dom }, t.n)),
     };
-    let dom = RecDom { inner: dom_inner.as_ref(), log: log.clone(), yield_hook: fine.clone() };
-    let mut cut = CountCut::new(opts.fire_at, opts.budget.unwrap_or(o.budget), log.clone());
+    let core = Core { pb: t, rlx: &rlx_inner, rank: &rank, dom: dom_inner.as_ref(), n: t.n, budget: o.budget };
+    run_core(&core, cfg.dd, cfg.cache, &cfg.fringe, &cfg.width, opts)
+}
+
+pub fn run_core<S: StateT>(core: &Core<S>, dd: DdKind, cache: CacheKind, fringe_kind: &FringeKind, width_kind: &WidthKind, opts: &RunOpts) -> RunOutG<S> {
+    let log: Arc<Log<S>> = Log::new(opts.record);
+    let fine = if opts.fine_yields { opts.yield_hook.clone() } else { None };
+    let pb = RecProblem { inner: core.pb, log: log.clone() };
+    let rlx = RecRelax { inner: core.rlx, log: log.clone() };
+    let rank = core.rank;
+    let width_inner = make_width::<S>(width_kind, core.n);
+    let width = RecWidth { inner: width_inner.as_ref(), log: log.clone() };
+    let dom = RecDom { inner: core.dom, log: log.clone(), yield_hook: fine.clone() };
+    let mut cut = CountCut::new(opts.fire_at, opts.budget.unwrap_or(core.budget), log.clone());
     cut.yield_hook = fine.clone();
     let cut = Arc::new(cut);
-    let dynrank = DynRank(&rank);
+    let dynrank = DynRank(rank);
     let mut f_simple = SimpleFringe::new(MaxUB::new(&dynrank));
     let mut f_nodup = NoDupFringe::new(MaxUB::new(&dynrank));
-    let mut f_tie = TieShuffleFringe::new(if let FringeKind::TieShuffle(c) = &cfg.fringe { c.clone() } else { vec![] });
-    let inner_fringe: &mut (dyn Fringe<State = St> + Send + Sync) = match cfg.fringe {
+    let mut f_tie = TieShuffleFringe::new(if let FringeKind::TieShuffle(c) = fringe_kind { c.clone() } else { vec![] });
+    let inner_fringe: &mut (dyn Fringe<State = S> + Send + Sync) = match fringe_kind {
         FringeKind::Simple => &mut f_simple,
         FringeKind::NoDup => &mut f_nodup,
         FringeKind::TieShuffle(_) => &mut f_tie,
     };
     // self-enqueue detection: (state, depth) of the last node popped by each thread
     let self_enqueue = Arc::new(AtomicBool::new(false));
-    let last_pop: Arc<Mutex<Vec<(u32, St, usize)>>> = Arc::new(Mutex::new(vec![]));
+    let last_pop: Arc<Mutex<Vec<(u32, S, usize)>>> = Arc::new(Mutex::new(vec![]));
     let lp = last_pop.clone();
-    let on_pop: Arc<dyn Fn(&SubProblem<St>) + Send + Sync> = Arc::new(move |n: &SubProblem<St>| {
+    let on_pop: Arc<dyn Fn(&SubProblem<S>) + Send + Sync> = Arc::new(move |n: &SubProblem<S>| {
         let tag = thread_tag();
         let mut g = lp.lock();
         g.retain(|e| e.0 != tag);
@@ -326,7 +348,7 @@ pub fn run_table(t: &TableDP, o: &Oracle, cfg: &Config, opts: &RunOpts) -> RunOu
     let se = self_enqueue.clone();
     let cut2 = cut.clone();
     let stop = opts.stop_on_self_enqueue;
-    let on_push: Arc<dyn Fn(&SubProblem<St>) + Send + Sync> = Arc::new(move |n: &SubProblem<St>| {
+    let on_push: Arc<dyn Fn(&SubProblem<S>) + Send + Sync> = Arc::new(move |n: &SubProblem<S>| {
         let tag = thread_tag();
         let g = lp.lock();
         if g.iter().any(|e| e.0 == tag && e.1 == *n.state && e.2 == n.depth) {
@@ -337,28 +359,24 @@ pub fn run_table(t: &TableDP, o: &Oracle, cfg: &Config, opts: &RunOpts) -> RunOu
         }
     });
     let mut fringe = RecFringe { inner: inner_fringe, log: log.clone(), len_mirror: opts.len_mirror.clone().unwrap_or_else(|| Arc::new(AtomicUsize::new(0))), on_push: Some(on_push), on_pop: Some(on_pop) };
-    if true {
-        set_cache_observer::<St>(Some(Arc::new(LogCacheObs { log: log.clone(), yield_hook: fine.clone() })));
-    } else {
-        set_cache_observer::<St>(None);
-    }
+    set_cache_observer::<S>(Some(Arc::new(LogCacheObs { log: log.clone(), yield_hook: fine.clone() })));
     take_panics();
     let res = catch_unwind(AssertUnwindSafe(|| {
         macro_rules! go {
             ($D:ty, $C:ty) => {
-                solve::<$D, HookCache<$C>>(&pb, &rlx, &rank, &width, &dom, cut.as_ref(), &mut fringe, opts)
+                solve::<S, $D, HookCache<$C>>(&pb, &rlx, rank, &width, &dom, cut.as_ref(), &mut fringe, opts)
             };
         }
-        match (cfg.dd, cfg.cache) {
-            (DdKind::Lel, CacheKind::Empty) => go!(DefaultMDDLEL<St>, EmptyCache<St>),
-            (DdKind::Lel, CacheKind::Simple) => go!(DefaultMDDLEL<St>, SimpleCache<St>),
-            (DdKind::Frontier, CacheKind::Empty) => go!(DefaultMDDFC<St>, EmptyCache<St>),
-            (DdKind::Frontier, CacheKind::Simple) => go!(DefaultMDDFC<St>, SimpleCache<St>),
-            (DdKind::Pooled, CacheKind::Empty) => go!(Pooled<St>, EmptyCache<St>),
-            (DdKind::Pooled, CacheKind::Simple) => go!(Pooled<St>, SimpleCache<St>),
+        match (dd, cache) {
+            (DdKind::Lel, CacheKind::Empty) => go!(DefaultMDDLEL<S>, EmptyCache<S>),
+            (DdKind::Lel, CacheKind::Simple) => go!(DefaultMDDLEL<S>, SimpleCache<S>),
+            (DdKind::Frontier, CacheKind::Empty) => go!(DefaultMDDFC<S>, EmptyCache<S>),
+            (DdKind::Frontier, CacheKind::Simple) => go!(DefaultMDDFC<S>, SimpleCache<S>),
+            (DdKind::Pooled, CacheKind::Empty) => go!(Pooled<S>, EmptyCache<S>),
+            (DdKind::Pooled, CacheKind::Simple) => go!(Pooled<S>, SimpleCache<S>),
         }
     }));
-    set_cache_observer::<St>(None);
+    set_cache_observer::<S>(None);
     let polls = cut.nb_polls();
     let fired = cut.fired.load(AO::SeqCst);
     let exhausted = cut.exhausted.load(AO::SeqCst);
@@ -366,7 +384,7 @@ pub fn run_table(t: &TableDP, o: &Oracle, cfg: &Config, opts: &RunOpts) -> RunOu
     let evs = log.take();
     let cv = log.c.vals();
     match res {
-        Ok(r) => RunOut {
+        Ok(r) => RunOutG {
             panic: None,
             completion: Some(r.completion),
             best_value: r.best_value,
@@ -384,7 +402,7 @@ pub fn run_table(t: &TableDP, o: &Oracle, cfg: &Config, opts: &RunOpts) -> RunOu
         },
         Err(_) => {
             let p = take_panics();
-            RunOut {
+            RunOutG {
                 panic: Some(p.join(" | ")),
                 completion: None,
                 best_value: None,
@@ -410,6 +428,9 @@ pub fn run_table(t: &TableDP, o: &Oracle, cfg: &Config, opts: &RunOpts) -> RunOu
 
 /// C01-style verdict on an *uninterrupted* run: terminated, exact, optimal value.
 pub fn check_exact_run(o: &Oracle, out: &RunOut) -> Result<(), String> {
+    check_exact_value(o.opt, out)
+}
+pub fn check_exact_value<S>(opt: Option<isize>, out: &RunOutG<S>) -> Result<(), String> {
     if let Some(p) = &out.panic {
         return Err(format!("solver panicked: {p}"));
     }
@@ -420,8 +441,8 @@ pub fn check_exact_run(o: &Oracle, out: &RunOut) -> Result<(), String> {
     if !c.is_exact {
         return Err("uninterrupted run reports is_exact = false".into());
     }
-    if c.best_value != o.opt {
-        return Err(format!("reported best value {:?} but the true optimum is {:?}", c.best_value, o.opt));
+    if c.best_value != opt {
+        return Err(format!("reported best value {:?} but the true optimum is {:?}", c.best_value, opt));
     }
     Ok(())
 }
@@ -429,6 +450,9 @@ pub fn check_exact_run(o: &Oracle, out: &RunOut) -> Result<(), String> {
 /// C02: the reported solution is feasible and consistent with the reported value.
 /// `own` = the incumbent was found by the solver itself (no caller supplied primal in play).
 pub fn check_solution(t: &TableDP, out: &RunOut, uninterrupted: bool, own: bool) -> Result<(), String> {
+    check_solution_with(&|sol| replay(t, sol, t.n).map(|(_, v)| v), out, uninterrupted, own)
+}
+pub fn check_solution_with<S>(replay_fn: &dyn Fn(&[Decision]) -> Result<isize, String>, out: &RunOutG<S>, uninterrupted: bool, own: bool) -> Result<(), String> {
     if out.panic.is_some() {
         return Ok(()); // reported elsewhere
     }
@@ -445,8 +469,8 @@ pub fn check_solution(t: &TableDP, out: &RunOut, uninterrupted: bool, own: bool)
                 return Err(format!("best_lower_bound() {} differs from best value {}", out.lb, v));
             }
             if own {
-                match replay(t, sol, t.n) {
-                    Ok((_, rv)) => {
+                match replay_fn(sol) {
+                    Ok(rv) => {
                         if rv != v {
                             return Err(format!("solution replays to {rv} but reported value is {v}; solution {:?}", sol));
                         }
